@@ -27,7 +27,7 @@ RULE = ("random release tables (1-12 rows, 1-5 distinct times on the model time 
         "time-typed particle variable, header in file or names in configuration, X/Y or lon/lat), discrete and continuous "
         "(frequency 1-4 steps), forward and reversed, still water, output every step. Non-trivial: at least two release "
         "events at different steps or rows outside the window or mult != 1; distinct by (mode, direction, step/mult pattern).")
-MANDATORY = ["integer_column_beyond_2_to_53", "discrete_release_with_frequency_entry", "file_with_XY_and_lonlat", "table_with_17_or_more_rows_several_per_time", "release_after_particles_were_removed", "discrete_forward", "discrete_reversed", "continuous_forward", "continuous_reversed",
+MANDATORY = ["lonlat_position_on_off_diagonal_subgrid", "integer_column_beyond_2_to_53", "discrete_release_with_frequency_entry", "file_with_XY_and_lonlat", "table_with_17_or_more_rows_several_per_time", "release_after_particles_were_removed", "discrete_forward", "discrete_reversed", "continuous_forward", "continuous_reversed",
              "row_before_start", "row_at_or_after_stop", "mult_zero", "mult_gt1", "several_rows_per_time", "lonlat_position",
              "names_in_config", "particle_variable_column", "release_hook_events", "time_typed_column_values", "column_with_configured_default"]
 ASSUMPTIONS = ["release times on the model time grid and sorted in simulation order (as the property quantifies)",
@@ -102,7 +102,7 @@ def gen_case(seed: int, idx: int) -> dict[str, Any]:
         nrow = int(rng.integers(9, 14)) if big else int(rng.choice([1, 1, 2, 3]))
         for _ in range(nrow):
             t = str(tadd(start, sgn * s * dt))
-            x = float(np.round(rng.uniform(2.0, imax - 3.0), 3))
+            x = float(np.round(rng.uniform(3.0 if lonlat else 2.0, imax - 3.0), 3))
             y = float(np.round(rng.uniform(2.0, jmax - 3.0), 3))
             z = float(np.round(rng.uniform(0.0, 50.0), 2))
             row: list[Any] = [t]
@@ -223,6 +223,8 @@ def build_scenario(case: dict[str, Any]) -> dict[str, Any]:
         state=dict(instance_variables=st_i, particle_variables=st_p, default_values=defaults),
         output=dict(period=case["dt"], instance=out_i, particle=out_p),
     )
+    if case["lonlat"] and case["idx"] % 2 == 0:
+        run["subgrid"] = [2, case["imax"] - 1, 1, case["jmax"] - 1]  # longitude/latitude rows on a subgrid whose corner is off the diagonal
     return dict(world=w, run=run)
 
 
@@ -279,6 +281,7 @@ def run_case(case: dict[str, Any], wd: Path) -> dict[str, Any]:
         sit["mult_gt1"] = int(any(r[mi] > 1 for r in case["rows"]))
     sit["several_rows_per_time"] = int(len(set(poss)) < len(poss))
     sit["lonlat_position"] = int(case["lonlat"])
+    sit["lonlat_position_on_off_diagonal_subgrid"] = int(case["lonlat"] and case["idx"] % 2 == 0)
     sit["names_in_config"] = int(not case["header"])
     sit["particle_variable_column"] = int(any(e[2] == "particle" for e in case["extras"]) or case["release_time_pv"])
     sit["release_hook_events"] = len(events)
